@@ -931,6 +931,12 @@ class Connection (EventMixin):
 
       msg_length = self.buf[offset+2] << 8 | self.buf[offset+3]
 
+      if msg_length < 8:
+        # Not even room for the header; the stream can't be framed any more
+        log.warning("Bad OpenFlow message length (%s) on connection %s"
+                    % (msg_length, self))
+        return False # Throw connection away
+
       if buf_len - offset < msg_length: break
 
       new_offset,msg = self.unpackers[ofp_type](self.buf, offset)
